@@ -100,6 +100,15 @@ pub fn gen_c01(args: &Args) {
         }
         let gs = gmt_choices(site.lon, 6.0);
         site.gmt = gs[(r.next() % gs.len() as u64) as usize];
+        if r.chance(1, 4) {
+            // zone offsets are any real number of hours in [-12, 12]: local mean time, odd seconds
+            let lmt = (site.lon as f64 / 1e4 * 240.0).round() as i64;
+            site.gmt = match r.range(0, 2) {
+                0 => lmt,
+                1 => (site.gmt + r.range(-1700, 1700)).clamp(-43200, 43200),
+                _ => (lmt + r.range(-3 * 3600, 3 * 3600)).clamp(-43200, 43200),
+            };
+        }
         let p = plain(r.range(0, 8) as usize);
         let o = call(&site, date, &p);
         w.emit(ev("c01", &site, date, &p, &o));
@@ -127,7 +136,8 @@ pub fn gen_c02(args: &Args) {
             _ => Some((r.range(1000, 10500), r.range(-900, 570))),
         };
         if r.chance(1, 3) {
-            p.pol = 6; // the library default: unflagged entries must still be conventional
+            // any policy (mostly the library default): unflagged entries must still be conventional
+            p.pol = if r.chance(1, 2) { 6 } else { r.range(1, 14) as usize };
         }
         let o = call(&site, date, &p);
         w.emit(ev("c02", &site, date, &p, &o));
@@ -146,6 +156,16 @@ pub fn gen_c02(args: &Args) {
                     "a": res_json(&a), "b": res_json(&b)}));
             }
         }
+    }
+    // policies that replace Shurooq / Maghrib themselves, on days where twilight partly fails: whatever is
+    // reported unflagged must still be the conventional sunrise / sunset
+    for _ in 0..args.num("edge", 400) {
+        let (site, date) = crate::pd::twilight_edge_case(&mut r, 600_000);
+        let mut p = plain(*pick(&mut r, &[1usize, 2, 6, 7, 8, 3, 5]));
+        p.pol = *pick(&mut r, &[5usize, 2, 5, 6]);
+        p.nl = *pick(&mut r, &[485_000i64, -485_000, 300_000]);
+        let o = call(&site, date, &p);
+        w.emit(ev("c02", &site, date, &p, &o));
     }
     let k = w.finish();
     println!("{}", json!({"events": k, "weather_pairs": n_pairs}));
@@ -175,7 +195,8 @@ pub fn gen_c03(args: &Args) {
         let site = site60(&mut r, 2);
         let mut p = angle_params(&mut r);
         if r.chance(1, 3) {
-            p.pol = 6; // the library default: unflagged entries must still be at the configured depression
+            // any policy (mostly the library default): unflagged entries must still be at the configured depression
+            p.pol = if r.chance(1, 2) { 6 } else { r.range(1, 14) as usize };
         }
         let o = call(&site, date, &p);
         w.emit(ev("c03", &site, date, &p, &o));
@@ -215,7 +236,7 @@ pub fn gen_c04(args: &Args) {
         let mut p = plain(r.range(0, 8) as usize);
         p.sch = r.range(1, 2) as usize;
         if r.chance(1, 3) {
-            p.pol = 6;
+            p.pol = if r.chance(1, 2) { 6 } else { r.range(1, 14) as usize };
         }
         let o = call(&site, date, &p);
         w.emit(ev("c04", &site, date, &p, &o));
@@ -368,7 +389,12 @@ pub fn gen_c20(args: &Args) {
         let p = plain(r.range(0, 8) as usize);
         let a = call(&site, date, &p);
         if r.chance(1, 2) {
-            let d = *pick(&mut r, &[3600i64, -3600, 1800, -1800, 10800, -10800]);
+            let d = *pick(&mut r, &[3600i64, -3600, 1800, -1800, 10800, -10800, 45, -17, 1836, -3564, 900]);
+            let mut site = site;
+            if r.chance(1, 3) {
+                site.gmt = (site.gmt + r.range(-1700, 1700)).clamp(-43200, 43200);
+            }
+            let a = call(&site, date, &p);
             let mut sb = site;
             sb.gmt += d;
             if sb.gmt.abs() > 12 * 3600 {
